@@ -161,6 +161,8 @@ Definition entry (sel : Z) (toks : list Z) : list Z :=
   | 121 => match run_dec (let* rl := dRlist in let* r := dRes in let* mt := dZ in let* rl' := dRlist in
                           ret (rl, r, mt, rl')) toks with
            | Some (rl, r, mt, rl') => eBool (law_rt_list rl r mt rl') | None => bad_input end
+  | 108 => match run_dec (dPair (dList dZ) (dList dZ)) toks with
+           | Some (b, a) => eBool (law_unchanged b a) | None => bad_input end
   | 109 => match run_dec (dPair dBuildInput dBuildGot) toks with
            | Some ((claims, refs), g) => eBool (law_task_dra claims refs g) | None => bad_input end
   | 110 => match run_dec (let* r := dRes in let* x := dRes in let* ra := dRes in let* rs := dRes in
